@@ -54,6 +54,19 @@ def one(rng):
                 l = Line("pred", "P.C08.file", [enc, "", lenc], note="writer raised " + proto.err_name(e))
                 l.expect = "writer-must-not-fail"
                 lines.append(l)
+    # root occurrences: the LoPar start-symbol file of a context-free treebank grammar carries them
+    if all(len(lin) <= 1 for f in g for lin in g[f]) and rng.random() < 0.7:
+        with cli.Scratch() as sc:
+            try:
+                with quiet():
+                    grammaroutput.lopar(g, lex, sc.path("lp"), "utf-8")
+                files = [gram.file_lines(sc.path("lp") + ext) for ext in (".gram", ".lex", ".start", ".oc", ".OC")]
+                files[2] = sorted(files[2], key=lambda x: [ord(c) for c in x])
+                lines.append(Line("pred", "P.C09.lopar", [gram.enc_grammar(g), lenc, " # ".join(gram.enc_lines(f) for f in files)]))
+            except Exception as e:
+                l = Line("pred", "P.C09.lopar", ["", "", ""], note="LoPar writer raised " + proto.err_name(e))
+                l.expect = "writer-must-not-fail"
+                lines.append(l)
     multi = any(c > 1 for f in g for l in g[f] for c in g[f][l].values())
     return Case("treebank", {"trees": [proto.pretty_tree(t) for t in ts], "reordering": reord, "markov": mo}, lines,
                 nontrivial=multi, tags=["markov"] if mo else ["deterministic"])
